@@ -47,6 +47,7 @@ type vRole struct {
 	leftT    time.Time
 	retT     time.Time
 	stales   int
+	staleT   time.Time // when the last stale head was received (the implementation re-arms its timer then)
 	tmo      time.Duration
 	want     uint32
 	cancel   context.CancelFunc
@@ -168,6 +169,7 @@ func (ex *vExec) onHook(r *vRole, ev string, a, b uint64, x any) {
 		r.inSel = false
 		if uint32(b) < r.want {
 			r.stales++
+			r.staleT = time.Now()
 		} else {
 			r.leftT = time.Now()
 		}
@@ -590,6 +592,7 @@ type lateObs struct {
 	Stales   int   `json:"stale_heads_received"`
 	TmoMs    int64 `json:"timeout_ms"`
 	ElapsMs  int64 `json:"in_select_ms"`
+	SinceSt  int64 `json:"since_last_stale_head_ms"`
 	Returned bool  `json:"returned"`
 }
 
@@ -603,7 +606,11 @@ func (ex *vExec) checkLate(out *[]lateObs) {
 			}
 			if el := end.Sub(r.selT); el > r.tmo+ex.slack {
 				r.lateSeen = true
-				*out = append(*out, lateObs{W: i + 1, Stales: r.stales, TmoMs: r.tmo.Milliseconds(), ElapsMs: el.Milliseconds(), Returned: !r.leftT.IsZero()})
+				since := int64(-1)
+				if !r.staleT.IsZero() {
+					since = end.Sub(r.staleT).Milliseconds()
+				}
+				*out = append(*out, lateObs{W: i + 1, Stales: r.stales, TmoMs: r.tmo.Milliseconds(), ElapsMs: el.Milliseconds(), SinceSt: since, Returned: !r.leftT.IsZero()})
 			}
 		}
 		r.mu.Unlock()
@@ -624,8 +631,28 @@ func (ex *vExec) exec(sc *vScript) vM {
 	var dv *divergence
 	blocked := map[string]bool{}
 	done := 0
-	for i := range sc.Steps {
+	for i := 0; i < len(sc.Steps); i++ {
 		st := &sc.Steps[i]
+		if st.A == "RunSend" {
+			// adjacent sends of one notify round commute: Go's map iteration decides their order, so the group
+			// is executed in whatever order the real loop picks and compared with the observation after the group
+			j := i
+			for j+1 < len(sc.Steps) && sc.Steps[j+1].A == "RunSend" {
+				j++
+			}
+			if j > i {
+				dv = ex.sendGroup(i, sc.Steps[i:j+1])
+				if dv == nil {
+					dv = ex.settle(j, &sc.Steps[j].O, blocked)
+				}
+				if dv != nil {
+					break
+				}
+				done += j - i + 1
+				i = j
+				continue
+			}
+		}
 		dv = ex.step(i, st)
 		if dv == nil {
 			dv = ex.settle(i, &st.O, blocked)
@@ -676,6 +703,32 @@ func (ex *vExec) exec(sc *vScript) vM {
 	res["events"] = ex.events
 	ex.evMu.Unlock()
 	return res
+}
+
+// sendGroup executes consecutive RunSend steps in the order the real notify loop iterates its map
+func (ex *vExec) sendGroup(i int, group []vStep) *divergence {
+	want := map[int]bool{}
+	for _, g := range group {
+		want[g.W] = true
+	}
+	for n := range group {
+		if !ex.awaitAt(ex.run, "ntf.send", vAwait) {
+			return &divergence{i + n, "position", "run loop expected parked at ntf.send, is " + ex.run.where()}
+		}
+		ex.run.mu.Lock()
+		w := ex.run.w
+		ex.run.mu.Unlock()
+		if !want[w] {
+			return &divergence{i + n, "maporder", fmt.Sprintf("Go's map iteration picked waiter %d, the script sends to others first", w)}
+		}
+		delete(want, w)
+		ex.run.open()
+		// the send itself must complete (the script only sends where there is room)
+		if !ex.run.await(vAwait, func() bool { return ex.run.at == "ntf.send" || ex.run.at == "ntf.exit" }) {
+			return &divergence{i + n, "position", "send to waiter " + fmt.Sprint(w) + " did not complete, run loop is " + ex.run.where()}
+		}
+	}
+	return nil
 }
 
 func anyTrue(b []bool) bool {
@@ -786,6 +839,7 @@ func (ex *vExec) finale(late *[]lateObs) *hangObs {
 		r.mu.Lock()
 		if r.started && !r.ret {
 			if r.tmo == 0 { // no timer: the caller gives up
+				ex.record(vM{"k": "cancel", "r": r.name, "i": r.idx})
 				r.cancel()
 			} else {
 				base := r.selT
